@@ -32,14 +32,26 @@ LIMITS = ("Resource limit (rlimit) exceeded", "rlimit", "timed out", "timeout")
 
 def expanded_source(repo, workdir):
     """cargo +nightly rustc --lib -- -Zunpretty=expanded on a scratch copy of the tree."""
-    dst = os.path.join(workdir, "expanded.rs")
+    import hashlib
+    h = hashlib.sha1()
+    for root, _dirs, files in sorted(os.walk(os.path.join(repo, "src"))):
+        for f in sorted(files):
+            if f.endswith(".rs"):
+                h.update(f.encode())
+                h.update(open(os.path.join(root, f), "rb").read())
+    os.makedirs(workdir, exist_ok=True)
+    dst = os.path.join(workdir, "expanded_" + h.hexdigest()[:12] + ".rs")
     if os.path.exists(dst):
         return dst
     scratch = os.path.join(workdir, "exp_copy")
     subprocess.run(["rm", "-rf", scratch])
     os.makedirs(scratch)
-    subprocess.run(["rsync", "-a", "--exclude", "target", "--exclude", ".git", "--exclude", "fuzz",
-                    "--exclude", "js-api", "--exclude", "media", repo + "/", scratch + "/"], check=True)
+    for item in ("src", "benches", "Cargo.toml", "Cargo.lock", "build.rs", "README.md"):
+        sp = os.path.join(repo, item)
+        if os.path.isdir(sp):
+            subprocess.run(["cp", "-r", sp, os.path.join(scratch, item)], check=True)
+        elif os.path.exists(sp):
+            subprocess.run(["cp", sp, os.path.join(scratch, item)], check=True)
     env = dict(os.environ, CARGO_NET_OFFLINE="true", CARGO_TARGET_DIR=os.path.join(workdir, "exp_target"))
     p = subprocess.run(["cargo", "+nightly", "rustc", "--lib", "--offline", "--", "-Zunpretty=expanded"],
                        cwd=scratch, env=env, capture_output=True, text=True)
